@@ -259,6 +259,48 @@ func TestVerifC20(t *testing.T) {
 			hk.Unmap(z)
 		}
 	}
+	// ---- the SAME two buffers compared again and again with new contents written into them in between (a loop that
+	//      reads candidates into one array and compares each with a bound): every answer is for the current contents
+	{
+		lr := hk.NewRNG(hk.Seed(), "c20reuse")
+		consts := [][]byte{bytes.Repeat([]byte{0xff}, 40), make([]byte, 40), lr.Bytes(40), lr.Bytes(40)}
+		for _, l := range []int{32, 16, 33, 8, 40} {
+			abuf, bbuf := make([]byte, l), make([]byte, l)
+			for step := 0; step < hk.N(200, 2000); step++ {
+				switch lr.Intn(4) {
+				case 0:
+					copy(bbuf, consts[lr.Intn(len(consts))])
+				case 1:
+					copy(abuf, consts[lr.Intn(len(consts))])
+				case 2:
+					bbuf[lr.Intn(l)] ^= byte(1 << uint(lr.Intn(8)))
+				default:
+					copy(abuf, bbuf)
+					if lr.Intn(2) == 0 {
+						abuf[lr.Intn(l)]++
+					}
+				}
+				want := bytes.Compare(abuf, bbuf)
+				// runs of calls with the arguments in the same places (the same array on the right again and again), then runs
+				// the other way round, then both ways in turn
+				phase := (step / 12) % 3
+				if phase != 1 {
+					if got := ConstantTimeCmp(abuf, bbuf, l); got != want {
+						r.Violation("cmp-wrong:buffers-reused-with-new-contents", hk.D{"a": hk.Hex(abuf), "b": hk.Hex(bbuf), "l": l, "got": got, "want": want, "step": step})
+						break
+					}
+				}
+				if phase == 0 {
+					continue
+				}
+				if got := ConstantTimeCmp(bbuf, abuf, l); got != -want {
+					r.Violation("cmp-wrong:buffers-reused-with-new-contents", hk.D{"a": hk.Hex(bbuf), "b": hk.Hex(abuf), "l": l, "got": got, "want": -want, "step": step, "swapped": true})
+					break
+				}
+			}
+			r.EvalN(fmt.Sprintf("cmp:buffers-reused,l=%d", l), hk.N(200, 2000))
+		}
+	}
 	r.Sample(hk.D{"kind": "ConstantTimeCmp", "a": "01" + "00", "b": "00ff", "l": 2})
 
 	// ---- DecomposeNAF(out, s, 257, w)
@@ -312,6 +354,41 @@ func TestVerifC20(t *testing.T) {
 		inputs = append(inputs, b)
 	}
 	r.Sample(hk.D{"kind": "DecomposeNAF", "s": hk.Hex(inputs[5]), "w": 4})
+	// ---- the digit buffer is a LOCAL ARRAY of the caller (on its stack), and the call runs from fresh goroutines at every
+	//      stack depth of a sweep: wherever the stack moves to during the call, the digits must arrive in the array.
+	//      Expected digits: the same call with a heap buffer (judged against the definition below).
+	{
+		type nc struct {
+			s    []byte
+			w    int
+			want []int
+		}
+		var ncs []nc
+		for i := 0; i < 14; i++ {
+			c := nc{s: inputs[(i*7+3)%len(inputs)], w: 1 + i%7, want: make([]int, 257)}
+			if p, _, _, _ := hk.Try(func() { DecomposeNAF(c.want, c.s, 257, c.w) }); !p {
+				ncs = append(ncs, c)
+			}
+		}
+		if len(ncs) > 0 {
+			hk.AtStackDepths(hk.N(700, 3000), 96<<10, 8, func(depth int) {
+				c := ncs[depth%len(ncs)]
+				var out [257]int
+				DecomposeNAF(out[:], c.s, 257, c.w)
+				bad := -1
+				for i := range out {
+					if out[i] != c.want[i] {
+						bad = i
+						break
+					}
+				}
+				if bad >= 0 {
+					r.Violation("naf-digits-missing-when-the-buffer-is-on-a-stack-that-moves", hk.D{"stack_depth_frames": depth, "s": hk.Hex(c.s), "w": c.w, "first_wrong_digit": bad, "got": fmt.Sprint(append([]int(nil), out[:]...)[bad]), "want": c.want[bad]})
+				}
+			})
+			r.EvalN("naf:stack-depth-sweep", hk.N(700, 3000))
+		}
+	}
 	for w := 1; w <= 7; w++ {
 		ww := w
 		hk.Parallel(len(inputs), func(i int) {
